@@ -185,4 +185,119 @@ theorem scanRules_wsm_complete {q : Req} {sk : Bool} {vals : List Str} {rs : Lis
           rw [if_neg hc3] at h
           cases h
 
+
+/-! ### projections of `dfs` -/
+
+theorem dfsStatic_eq (q : Req) (ss : List (Str × State)) (x : Str) (xs vals : List Str) :
+    dfsStatic q ss x xs vals =
+      match lookupStatic x ss with
+      | some s => dfs q s xs vals
+      | none => ⟨.none, [], false⟩ := by
+  induction ss with
+  | nil => simp [dfsStatic, lookupStatic]
+  | cons e t ih =>
+    obtain ⟨k, s⟩ := e
+    simp only [dfsStatic, lookupStatic]
+    split <;> simp_all
+
+/-- the third attempt of `_match`: `if parts == [""]: for rule in state.rules: ...` -/
+def fallback (q : Req) (rs : List Rule) (x : Str) (xs vals : List Str) : Out :=
+  if x :: xs = [[]] then scanRules q true vals rs else ⟨.none, [], false⟩
+
+theorem dfs_nil_res (q : Req) (rs ss ds) (vals : List Str) :
+    (dfs q (.node rs ss ds) [] vals).res =
+      match (scanRules q false vals rs).res with
+      | .none => (match lookupStatic [] ss with
+                  | some child => slashCheck q vals child.rules
+                  | none => .none)
+      | r => r := by
+  rw [dfs.eq_1]
+  cases h : (scanRules q false vals rs).res with
+  | none => cases hl : lookupStatic [] ss <;> simp [h]
+  | found r vs => simp [h]
+  | slash => simp [h]
+
+theorem dfs_nil_ms (q : Req) (rs ss ds) (vals : List Str) :
+    (dfs q (.node rs ss ds) [] vals).ms = (scanRules q false vals rs).ms := by
+  rw [dfs.eq_1]
+  cases h : (scanRules q false vals rs).res with
+  | none => cases hl : lookupStatic [] ss <;> simp
+  | found r vs => simp
+  | slash => simp
+
+theorem dfs_nil_wsm (q : Req) (rs ss ds) (vals : List Str) :
+    (dfs q (.node rs ss ds) [] vals).wsm = (scanRules q false vals rs).wsm := by
+  rw [dfs.eq_1]
+  cases h : (scanRules q false vals rs).res with
+  | none => cases hl : lookupStatic [] ss <;> simp
+  | found r vs => simp
+  | slash => simp
+
+theorem dfs_cons_res (q : Req) (rs ss ds) (x : Str) (xs vals : List Str) :
+    (dfs q (.node rs ss ds) (x :: xs) vals).res =
+      match (dfsStatic q ss x xs vals).res with
+      | .none => (match (dfsDyn q ds x xs vals).res with
+                  | .none => (fallback q rs x xs vals).res
+                  | r => r)
+      | r => r := by
+  rw [dfs.eq_2]
+  cases h1 : (dfsStatic q ss x xs vals).res with
+  | none =>
+    cases h2 : (dfsDyn q ds x xs vals).res with
+    | none => simp [h2, fallback]
+    | found r vs => simp [h2]
+    | slash => simp [h2]
+  | found r vs => simp [h1]
+  | slash => simp [h1]
+
+/-- when the search at a state returns `None`, all three attempts did, and the bookkeeping is the
+concatenation of theirs -/
+theorem dfs_cons_none {q : Req} {rs ss ds} {x : Str} {xs vals : List Str}
+    (h : (dfs q (.node rs ss ds) (x :: xs) vals).res = .none) :
+    (dfsStatic q ss x xs vals).res = .none ∧ (dfsDyn q ds x xs vals).res = .none ∧
+    (fallback q rs x xs vals).res = .none ∧
+    (dfs q (.node rs ss ds) (x :: xs) vals).ms =
+      (dfsStatic q ss x xs vals).ms ++ (dfsDyn q ds x xs vals).ms ++ (fallback q rs x xs vals).ms ∧
+    (dfs q (.node rs ss ds) (x :: xs) vals).wsm =
+      ((dfsStatic q ss x xs vals).wsm || (dfsDyn q ds x xs vals).wsm || (fallback q rs x xs vals).wsm) := by
+  rw [dfs_cons_res] at h
+  cases h1 : (dfsStatic q ss x xs vals).res with
+  | none =>
+    cases h2 : (dfsDyn q ds x xs vals).res with
+    | none =>
+      simp only [h1, h2] at h
+      refine ⟨rfl, rfl, h, ?_, ?_⟩ <;> (rw [dfs.eq_2]; simp [h1, h2, fallback])
+    | found r vs => simp [h1, h2] at h
+    | slash => simp [h1, h2] at h
+  | found r vs => simp [h1] at h
+  | slash => simp [h1] at h
+
+/-- everything a sub-search adds to `have_match_for` is in the enclosing search's set -/
+theorem dfs_cons_ms_sub {q : Req} {rs ss ds} {x : Str} {xs vals : List Str} {m : Str}
+    (h : m ∈ (dfs q (.node rs ss ds) (x :: xs) vals).ms) :
+    m ∈ (dfsStatic q ss x xs vals).ms ∨ m ∈ (dfsDyn q ds x xs vals).ms ∨ m ∈ (fallback q rs x xs vals).ms := by
+  rw [dfs.eq_2] at h
+  cases h1 : (dfsStatic q ss x xs vals).res with
+  | none =>
+    cases h2 : (dfsDyn q ds x xs vals).res with
+    | none =>
+      simp only [h1, h2, fallback] at h ⊢
+      simp only [List.mem_append] at h
+      rcases h with (h | h) | h
+      · exact .inl h
+      · exact .inr (.inl h)
+      · exact .inr (.inr h)
+    | found r vs =>
+      simp only [h1, h2, List.mem_append] at h
+      rcases h with h | h
+      · exact .inl h
+      · exact .inr (.inl h)
+    | slash =>
+      simp only [h1, h2, List.mem_append] at h
+      rcases h with h | h
+      · exact .inl h
+      · exact .inr (.inl h)
+  | found r vs => simp only [h1] at h; exact .inl h
+  | slash => simp only [h1] at h; exact .inl h
+
 end Wz.Routing
